@@ -1362,6 +1362,9 @@ class WcParse(Generic[AnyStr]):
                     current.append(value)
                 self.consume_path_sep(i)
                 current.append(sep)
+            else:
+                # Merged into the previous `globstar`, but trailing separators still count as one.
+                self.consume_path_sep(i)
             self.set_start_dir()
         else:
             current.append(value)
